@@ -75,6 +75,10 @@ T = [
   '''let n := den x (nvi (fs.getD 0 zero) sClose sVol) i
      let e := den x (ema ep (Arith.nat 2) (nvi (fs.getD 0 zero) sClose sVol)) i
      if Arith.lt n e then buy else if Arith.gt n e then sell else hold'''),
+ ('Tsi', ['f', 's', 'sig'], ['1 ≤ f', '1 ≤ s', '1 ≤ sig'],
+  '''let t := den x (tsi f s sClose) i
+     let g := den x (ema sig (Arith.nat 2) (tsi f s sClose)) i
+     if Arith.gt t hold && Arith.gt t g then buy else if Arith.lt t hold && Arith.lt t g then sell else hold'''),
  # as written (known finding): the high price feeds all three CCI inputs
  ('Cci', ['p'], ['1 ≤ p'],
   '''let c := den x (cci p sHigh sHigh sHigh) i
